@@ -66,4 +66,9 @@ JAsCoded(q, rq, yq) ==
 (* ellipse of the covariance Q diag(a^2, b^2) Q^T, Q the lattice rotation <<c, s, d>>: entries times d^2 *)
 EllipseCov(a, b, ang) == << <<C(ang) * C(ang) * a * a + S(ang) * S(ang) * b * b, C(ang) * S(ang) * (a * a - b * b)>>,
                             <<C(ang) * S(ang) * (a * a - b * b), S(ang) * S(ang) * a * a + C(ang) * C(ang) * b * b>> >>
+(* ---- generic (real-valued) inputs: residuals measured by the harness in units of 1e-12 (relative to the size of the data):      *)
+(* reductions select exactly the planar entries; a rigid transform (any axis, any angle) acts on position as R p + T and on the      *)
+(* attitude as the rotation R * R(attitude) (identity neutral, successive transforms compose); the ellipse of a random PSD           *)
+(* covariance (rank-deficient included) has major >= minor >= 0 and reconstructs the covariance.  Bound 1e-9.                        *)
+GenericOK(res) == \A i \in 1..Len(res) : res[i] <= 1000
 =============================================================================
